@@ -663,3 +663,35 @@ Proof.
   - apply fst_snd_length.
   - intros k Hk. rewrite <- Eg in Hk. eapply fst_filter_lease. exact Hk.
 Qed.
+
+(* ---- a rejected rename leaves both stores as they were *)
+Lemma ts_rename_total : forall kn e, (forall k, k ∈ (fst <$> kn) -> is_Some (e !! k)) ->
+  exists e', ts_rename e kn = (e', EOk).
+Proof.
+  induction kn as [|[k n] kn IH]; intros e H; cbn [ts_rename]; [eauto|].
+  destruct (H k) as [c Hc]; [left|]. rewrite Hc. apply IH. intros x Hx.
+  destruct (decide (x = k)) as [->|Hne]; [rewrite lookup_insert; eauto|].
+  rewrite lookup_insert_ne by congruence. apply H. right. exact Hx.
+Qed.
+
+(* renameGateway from a consistent state: the metadata update validates (every key exists, none
+   internal) before anything is written, and once it passes the engine cannot refuse — so a rename
+   that returns an error has changed neither metadata nor engine *)
+Theorem rename_gateway_rejected host s keys names s' er :
+  Inv s -> Cons s -> is_Some (s_eng s !! host) -> length keys = length names ->
+  (forall k, k ∈ keys -> leaseholder k = host) ->
+  rename_gateway host s keys names = (s', er) -> er <> EOk -> s' = s.
+Proof.
+  intros I C Hn Hlen Hkeys. unfold rename_gateway.
+  destruct (tab_rename (s_tab s) keys names) as [t' er1] eqn:Et.
+  destruct (negb (is_ok er1)) eqn:Eo; [intros [= <- _] _; reflexivity|].
+  apply is_ok_false in Eo. subst er1.
+  destruct (tab_rename_ok _ _ _ _ Hlen Et) as [Hex _].
+  destruct (ts_rename_total (zip keys names) (eng_of (upd_tab s t') host)) as [e' He'].
+  { intros k Hk. rewrite fst_zip_eq in Hk by exact Hlen. destruct (Hex k Hk) as (c & Hc & _).
+    change (eng_of (upd_tab s t') host) with (eng_of s host).
+    assert (Hl : c_lease c = host) by (rewrite <- (Inv_row_lease s k c I Hc); apply Hkeys, Hk).
+    assert (Hnf : c_lease c <> node_free) by (rewrite Hl; destruct (inv_nodes _ I host Hn); lia).
+    pose proof (cons_tab _ C k c Hc Hnf) as H. rewrite Hl in H. rewrite H. eauto. }
+  rewrite He'. intros [= _ <-] H. congruence.
+Qed.
